@@ -107,11 +107,17 @@ def source_descriptor(src):
     return unparse(c.func) if isinstance(c, ast.Call) else src.text
 
 
-def rule_contain(chk):
+def rule_contain(chk, only=None):
+    """only: iterable of entry labels (e.g. "eliot.log_call") to restrict the rule to, for properties that depend on the
+    containment of a few entry points only"""
     ctx = chk.ctx
     ct = ctx.contain
     entries = entry_points(chk)
-    chk.instances("C07.contain:entry-points", len(entries), 40)
+    if only is not None:
+        entries = {f: l for f, l in entries.items() if l in set(only)}
+        chk.need(entries, "C07.contain: none of the entry points %s exists" % sorted(only))
+    else:
+        chk.instances("C07.contain:entry-points", len(entries), 40)
     for f, label in sorted(entries.items(), key=lambda kv: kv[1]):
         esc = ct.escaping(f)
         bad = []
